@@ -123,6 +123,75 @@ pub fn hydrate_from(j: &J, enc_: automerge::TextEncoding) -> automerge::hydrate:
     }
 }
 
+/// hydrate::Value -> the tagged image form (inverse of hydrate_from; map entries sorted by key)
+pub fn tagged_from_hydrate(v: &automerge::hydrate::Value) -> J {
+    use automerge::hydrate::Value as HV;
+    match v {
+        HV::Scalar(s) => json!({"t":"scalar","v": enc::scalar(s)}),
+        HV::Map(m) => {
+            let mut es: Vec<(String, J)> = m.iter().map(|(k, mv)| (k.clone(), tagged_from_hydrate(&mv.value))).collect();
+            es.sort_by(|a, b| a.0.cmp(&b.0));
+            json!({"t":"map","ents": es.into_iter().map(|(k, v)| json!({"k": k, "v": v})).collect::<Vec<_>>()})
+        }
+        HV::List(l) => json!({"t":"seq","items": l.iter().map(|lv| tagged_from_hydrate(&lv.value)).collect::<Vec<_>>()}),
+        HV::Text(t) => json!({"t":"text","toks": enc::str_tokens(&t.to_string())}),
+    }
+}
+
+/// spans in the harness form [{"t":"text","toks":[..],"marks":[{"name","v"}..]} | {"t":"block","value":<tagged map>}]
+pub fn spans_from(j: &J, enc_: automerge::TextEncoding) -> Vec<automerge::iter::Span> {
+    use automerge::iter::Span;
+    j.as_array()
+        .cloned()
+        .unwrap_or_default()
+        .iter()
+        .map(|s| {
+            if s["t"] == "block" {
+                match hydrate_from(&s["value"], enc_) {
+                    automerge::hydrate::Value::Map(m) => Span::Block(m),
+                    _ => Span::Block(automerge::hydrate::Map::default()),
+                }
+            } else {
+                let toks: Vec<String> = s["toks"].as_array().map(|a| a.iter().filter_map(|t| t.as_str().map(String::from)).collect()).unwrap_or_default();
+                let ms: Vec<(String, ScalarValue)> = s["marks"].as_array().cloned().unwrap_or_default().iter()
+                    .map(|m| (m["name"].as_str().unwrap_or("m").to_string(), scalar_from(&m["v"]))).collect();
+                let marks = if ms.is_empty() { None } else { Some(std::sync::Arc::new(ms.into_iter().collect::<automerge::marks::MarkSet>())) };
+                Span::Text { text: enc::tokens_str(&toks), marks }
+            }
+        })
+        .collect()
+}
+
+pub fn spans_json<I: Iterator<Item = automerge::iter::Span>>(it: I) -> J {
+    use automerge::iter::Span;
+    J::Array(
+        it.map(|s| match s {
+            Span::Text { text, marks } => {
+                let mut v: Vec<(String, J)> = marks.map(|m| m.iter().map(|(n, val)| (n.to_string(), json!({"name": enc::safe_str(n), "v": enc::scalar(val)}))).collect()).unwrap_or_default();
+                v.sort_by(|a, b| a.0.cmp(&b.0));
+                json!({"t":"text","toks": enc::str_tokens(&text), "marks": v.into_iter().map(|x| x.1).collect::<Vec<_>>()})
+            }
+            Span::Block(m) => json!({"t":"block","value": tagged_from_hydrate(&automerge::hydrate::Value::Map(m))}),
+        })
+        .collect(),
+    )
+}
+
+pub fn rand_spans(rng: &mut Rng, prof: &Profile) -> J {
+    let n = rng.below(5);
+    let mut v = vec![];
+    for _ in 0..n {
+        if rng.chance(1, 3) {
+            let ents: Vec<J> = (0..1 + rng.below(2)).map(|k| { let key = ["type", "level"][k]; json!({"k": key, "v": {"t":"scalar","v": rand_scalar(rng, prof)}}) }).collect();
+            v.push(json!({"t":"block","value":{"t":"map","ents":ents}}));
+        } else {
+            let marks = if prof.marks && rng.chance(1, 3) { json!([{"name":"bold","v": enc::scalar(&ScalarValue::Boolean(true))}]) } else { json!([]) };
+            v.push(json!({"t":"text","toks": rand_toks(rng, prof, 3), "marks": marks}));
+        }
+    }
+    J::Array(v)
+}
+
 pub fn rand_container(rng: &mut Rng, prof: &Profile) -> J {
     loop {
         let v = rand_value(rng, prof, 0);
@@ -218,6 +287,16 @@ pub fn exec<T: Transactable + ReadDoc>(t: &mut T, call: &J) -> J {
             let toks: Vec<String> = call["toks"].as_array().map(|a| a.iter().filter_map(|t| t.as_str().map(String::from)).collect()).unwrap_or_default();
             done(t.update_text(&obj, enc::tokens_str(&toks)))
         }
+        "update_spans" => {
+            let spans = spans_from(&call["spans"], t.text_encoding());
+            let r = t.update_spans(&obj, automerge::marks::UpdateSpansConfig::default(), spans);
+            let mut out = done(r);
+            out["got"] = match t.spans(&obj) {
+                Ok(sp) => spans_json(sp),
+                Err(e) => json!([{"t": format!("error {:?}", e), "toks": [], "marks": []}]),
+            };
+            out
+        }
         "update_object" => {
             let v = hydrate_from(&call["value"], t.text_encoding());
             match t.update_object(&obj, &v) {
@@ -272,6 +351,8 @@ pub struct Profile {
     pub stringy: bool,
     /// programs also use the reconciliation / bulk construction calls (C27)
     pub bulk: bool,
+    /// ... including update_spans with block markers
+    pub spans: bool,
     /// text programs also overwrite single characters with put(text, i, "c") (conflicting values on
     /// one text element) and embed objects (C24)
     pub text_puts: bool,
@@ -295,6 +376,7 @@ impl Profile {
             combining: false,
             stringy: false,
             bulk: false,
+            spans: false,
             text_puts: false,
         }
     }
@@ -400,6 +482,7 @@ pub fn gen(rng: &mut Rng, view: &J, prof: &Profile) -> J {
     if prof.bulk && rng.chance(1, 2) {
         let len = o["len"].as_u64().unwrap_or(0) as usize;
         return match ty {
+            "text" if prof.spans && rng.chance(1, 2) => json!({"fn":"update_spans","obj":id,"spans": rand_spans(rng, prof)}),
             "text" => json!({"fn":"update_text","obj":id,"toks": if rng.chance(1, 6) { vec![] } else { rand_toks(rng, prof, 5) }}),
             "list" => match rng.below(4) {
                 0 => json!({"fn":"update_object","obj":id,"value":{"t":"seq","items": (0..rng.below(4)).map(|_| rand_value(rng, prof, 1)).collect::<Vec<_>>()}}),
